@@ -30,6 +30,10 @@ pub enum COp {
     PeerIssue { bump: u8 },
     /// the peer retires the `sel`-th of the connection ids it currently holds
     PeerRetire { sel: u8 },
+    /// the peer issues its next connection id but the frame stays in flight (reordered behind everything that
+    /// follows); a peer that goes on issuing as if this id did not count over-issues without the endpoint being
+    /// able to tell — until the held frame arrives (`Base::PeerHeld`)
+    PeerIssueHold,
 }
 
 #[derive(Clone, Debug, Serialize, Deserialize, PartialEq)]
@@ -46,7 +50,13 @@ pub struct CidHist {
 pub fn gen_hist(r: &mut Rng, n: usize, handshaken: bool) -> CidHist {
     let mut ops = Vec::with_capacity(n);
     for _ in 0..n {
-        ops.push(if r.one_in(3) { COp::PeerRetire { sel: r.below(8) as u8 } } else { COp::PeerIssue { bump: if r.one_in(3) { r.range(1, 3) as u8 } else { 0 } } });
+        ops.push(if r.one_in(3) {
+            COp::PeerRetire { sel: r.below(8) as u8 }
+        } else if r.one_in(12) {
+            COp::PeerIssueHold
+        } else {
+            COp::PeerIssue { bump: if r.one_in(3) { r.range(1, 3) as u8 } else { 0 } }
+        });
     }
     CidHist { local_limit: *r.pick(&[2u8, 2, 3, 4, 8, 10]), peer_limit: *r.pick(&[2u8, 2, 3, 4, 8, 10]), handshaken, ops }
 }
@@ -86,6 +96,10 @@ struct Fx {
     // peer model as issuer
     p_next: u64,
     p_rpt: u64,
+    /// sequence numbers of the peer's ids whose frames have been delivered
+    p_received: BTreeSet<u64>,
+    /// issued by the peer, frame still in flight
+    p_held: Vec<u64>,
     // peer model as holder of our ids
     peer_holds: BTreeSet<u64>,
     local_next: u64,
@@ -113,6 +127,8 @@ impl Fx {
             local_limit: h.local_limit as u64,
             p_next: 1,
             p_rpt: 0,
+            p_received: [0u64].into_iter().collect(),
+            p_held: Vec::new(),
             peer_holds: [0u64].into_iter().collect(),
             local_next: 1,
             seen_new: 0,
@@ -144,10 +160,12 @@ impl Fx {
                 COp::PeerIssue { bump } => {
                     let seq = self.p_next;
                     let mut rpt = (self.p_rpt + *bump as u64).min(seq);
-                    // a legitimate issuer never exceeds our limit
-                    if seq + 1 - rpt > self.local_limit {
-                        rpt = seq + 1 - self.local_limit;
+                    // the issuer keeps what the endpoint has received within our limit (ids whose frames are still in
+                    // flight are not counted: see `PeerIssueHold`)
+                    while self.p_received.range(rpt..).count() as u64 + 1 > self.local_limit {
+                        rpt += 1;
                     }
+                    self.p_held.retain(|h| *h >= rpt);
                     let raw = wire::new_connection_id(seq, rpt, &peer_cid(seq)[..], &[seq as u8; 16]);
                     let f = match wire::parse_one(raw) {
                         Ok(Frame::NewConnectionId(f)) => f,
@@ -156,7 +174,14 @@ impl Fx {
                     self.remote.recv_frame(f).map_err(|e| format!("legitimate NEW_CONNECTION_ID seq={seq} rpt={rpt} (limit {}) rejected: {e}", self.local_limit))?;
                     self.p_next = seq + 1;
                     self.p_rpt = rpt;
+                    self.p_received.insert(seq);
                     self.units += 1;
+                }
+                COp::PeerIssueHold => {
+                    if self.p_held.len() < 2 {
+                        self.p_held.push(self.p_next);
+                        self.p_next += 1;
+                    }
                 }
                 COp::PeerRetire { sel } => {
                     if !h.handshaken || self.peer_holds.len() < 2 {
@@ -187,7 +212,10 @@ pub fn probe(h: &CidHist, forged: &Forged, _seed: u64) -> ProbeResult {
     let mut res = ProbeResult::new();
     res.units = fx.units + fx.local_limit + h.peer_limit as u64;
     let (p_next, p_rpt, local_next, limit) = (fx.p_next, fx.p_rpt, fx.local_next, fx.local_limit);
+    let p_received = fx.p_received.clone();
+    let held = fx.p_held.first().copied().unwrap_or(p_next);
     let anchor = |b: Base| match b {
+        Base::PeerHeld => held,
         Base::PeerNextSeq => p_next,
         Base::PeerRpt => p_rpt,
         Base::LocalNextSeq => local_next,
@@ -205,15 +233,15 @@ pub fn probe(h: &CidHist, forged: &Forged, _seed: u64) -> ProbeResult {
             // RFC 9000 §19.15: rpt > seq -> FRAME_ENCODING_ERROR; §5.1.1: more active ids than the limit after
             // applying the frame -> CONNECTION_ID_LIMIT_ERROR; a gap in the sequence numbers is not an error
             let new_rpt = p_rpt.max(rp);
-            let mut active = p_next.saturating_sub(new_rpt.max(p_rpt));
-            if s >= p_next && s >= new_rpt {
-                active += 1;
-            }
+            let mut after = p_received.clone();
+            after.insert(s);
+            let active = after.range(new_rpt..).count() as u64;
+            res.detail.push_str(&format!("; delivered {:?}{}", p_received.iter().rev().take(12).collect::<Vec<_>>(), if held < p_next { format!(", seq {held} still in flight") } else { String::new() }));
             let expect = if rp > s {
                 Expect { case: "new-cid-rpt-gt-seq".into(), allowed: vec!["FrameEncoding"], legal: false }
             } else if active > limit {
                 Expect { case: "new-cid-over-limit".into(), allowed: vec!["ConnectionIdLimit"], legal: false }
-            } else if s > p_next {
+            } else if s > p_received.iter().next_back().copied().unwrap_or(0) + 1 {
                 // far-ahead sequence number: legal, an implementation may still refuse to track the gap
                 Expect { case: "new-cid-gap".into(), allowed: vec!["Ok", "ConnectionIdLimit", "ProtocolViolation"], legal: true }
             } else {
